@@ -47,6 +47,58 @@ pub mod event_loop;
 /// Task join abstraction and impl.
 pub mod join;
 
+/// Verification access to an event loop that is not started: the harness thread makes its turns.
+#[cfg(all(feature = "verif", unix))]
+pub mod verif_loop {
+    use super::event_loop::EventLoop;
+    use std::ffi::c_longlong;
+    use std::sync::atomic::AtomicUsize;
+    use std::sync::{Arc, Condvar, Mutex};
+    use std::time::Duration;
+
+    /// An event loop without its thread.
+    #[derive(Debug)]
+    pub struct VLoop(&'static mut EventLoop<'static>);
+
+    impl VLoop {
+        /// Create an event loop (never started, never dropped).
+        pub fn new(max_size: usize) -> std::io::Result<Self> {
+            EventLoop::new(
+                "verif-loop".to_string(),
+                0,
+                128 * 1024,
+                0,
+                max_size,
+                0,
+                Arc::new((Mutex::new(AtomicUsize::new(0)), Condvar::new())),
+            )
+            .map(|l| Self(Box::leak(Box::new(l))))
+        }
+        /// `CoroutinePool::submit_task` of the loop's pool.
+        pub fn submit_task(
+            &self,
+            name: Option<String>,
+            func: impl FnOnce(Option<usize>) -> Option<usize> + 'static,
+            param: Option<usize>,
+            priority: Option<c_longlong>,
+        ) -> std::io::Result<u64> {
+            self.0.submit_task(name, func, param, priority)
+        }
+        /// One iteration of the loop thread: `wait_event(timeout)` with this loop as the current one.
+        pub fn turn(&mut self, timeout: Duration) -> std::io::Result<()> {
+            EventLoop::init_current(self.0);
+            let r = self.0.wait_event(Some(timeout));
+            EventLoop::clean_current();
+            r
+        }
+        /// The running size of the loop's pool.
+        #[must_use]
+        pub fn running_size(&self) -> usize {
+            self.0.get_running_size()
+        }
+    }
+}
+
 /// Verification access to the crate-private selector.
 #[cfg(all(feature = "verif", unix))]
 pub mod verif_selector {
